@@ -206,6 +206,21 @@ func drawPhases(t *rapid.T, kinds []string) []phase {
 	return out
 }
 
+// drawAllPhases returns every kind of `must` once, in a generated order, with "down" phases (failed
+// connection attempts) inserted at generated places: every scenario covers every fault kind, so no
+// class depends on luck.
+func drawAllPhases(t *rapid.T, must []string) []phase {
+	order := rapid.Permutation(must).Draw(t, "phase_order")
+	var out []phase
+	for _, k := range order {
+		if rapid.IntRange(0, 2).Draw(t, "down_before") == 0 {
+			out = append(out, phase{kind: "down", down: time.Duration(rapid.IntRange(10, 200).Draw(t, "down_ms")) * time.Millisecond})
+		}
+		out = append(out, phase{kind: k, n: rapid.IntRange(0, 5).Draw(t, "frames")})
+	}
+	return out
+}
+
 func phasesString(ps []phase) string {
 	var s []string
 	for _, p := range ps {
@@ -621,28 +636,24 @@ func init() {
 func TestC14Clients(t *testing.T) {
 	rec := evid.New(t, "C14", "client-type endpoints under generated fault sequences: TCP client against a harness server that is down for a while (failed connection attempts), accepts and then ends the connection by EOF, reset or silence (idle timeout); serial endpoint (hooked opener) whose open fails several times and whose reads fail with an injected error; oracles: strictly alternating open/close events (never two channels at once), every close event carries an error matching the injected cause, a fresh channel opens after every close but not earlier than the reconnect delay, connections seen by the peer == open events; non-trivial = >=2 consecutive failures including a failed connect; distinct by hash of the phases")
 	rec.Require("tcp-client", "serial", "udp-client", "failed-connect-then-failure", "idle-expiry", "reset", "consumer-stalled-across-close", "write-failure-before-read-fault", "fault-after-long-lived-channel", "read-fault-while-writer-blocked")
-	evid.Check(t, rec, evid.N(14, 80), func(t *rapid.T) {
+	evid.Check(t, rec, evid.N(12, 60), func(t *rapid.T) {
 		// several independent sub-scenarios run concurrently to use the waiting time
-		k := rapid.IntRange(3, 6).Draw(t, "batch")
 		type sub struct {
 			kind   string
 			phases []phase
 			err    error
 		}
-		var subs []*sub
-		for i := 0; i < k; i++ {
-			s := &sub{kind: rapid.SampledFrom([]string{"tcp-client", "tcp-client", "serial", "udp-client"}).Draw(t, "kind")}
-			if s.kind == "tcp-client" {
-				s.phases = drawPhases(t, []string{"down", "eof", "eof", "reset", "idle", "eof-longlived"})
-			} else if s.kind == "udp-client" {
-				s.phases = drawPhases(t, []string{"down", "answer-then-silent", "answer-then-silent"})
-				if len(s.phases) > 3 {
-					s.phases = s.phases[:3]
-				}
-			} else {
-				s.phases = drawPhases(t, []string{"down", "readerr", "readerr", "readerr-stalled", "writefail-then-readerr", "longlived-readerr", "blockedwrite-readerr"})
-			}
-			subs = append(subs, s)
+		// one scenario of each endpoint kind per case, each going through every fault kind of its endpoint
+		subs := []*sub{
+			{kind: "tcp-client", phases: drawAllPhases(t, []string{"eof", "reset", "idle", "eof-longlived"})},
+			{kind: "serial", phases: drawAllPhases(t, []string{"readerr", "readerr-stalled", "writefail-then-readerr", "longlived-readerr", "blockedwrite-readerr"})},
+			{kind: "udp-client", phases: drawAllPhases(t, []string{"answer-then-silent"})},
+		}
+		if rapid.Bool().Draw(t, "extra_tcp") {
+			subs = append(subs, &sub{kind: "tcp-client", phases: drawPhases(t, []string{"down", "eof", "eof", "reset", "idle", "eof-longlived"})})
+		}
+		if rapid.Bool().Draw(t, "extra_serial") {
+			subs = append(subs, &sub{kind: "serial", phases: drawPhases(t, []string{"down", "readerr", "readerr-stalled", "writefail-then-readerr", "blockedwrite-readerr"})})
 		}
 		var wg sync.WaitGroup
 		for _, s := range subs {
@@ -837,16 +848,16 @@ func TestC14Servers(t *testing.T) {
 	rec := evid.New(t, "C14", "TCP and UDP server endpoints with 2..5 generated peers that leave, fall silent (idle expiry after ~IdleTimeout with a timeout error) or keep sending every IdleTimeout/4 for 5 x IdleTimeout (must stay open; discarded as inconclusive when the sender itself stalled); every peer gets its own channel and accepting continues; non-trivial = a silent and a keepalive peer together; distinct by hash of the peer list")
 	rec.Require("tcp-server", "udp-server", "silent+keepalive")
 	evid.Check(t, rec, evid.N(8, 30), func(t *rapid.T) {
-		k := rapid.IntRange(3, 6).Draw(t, "batch")
 		type sub struct {
 			udp   bool
 			peers []string
 			err   error
 		}
 		var subs []*sub
-		for i := 0; i < k; i++ {
-			s := &sub{udp: rapid.Bool().Draw(t, "udp")}
-			s.peers = rapid.SliceOfN(rapid.SampledFrom([]string{"leave", "silent", "keepalive"}), 2, 5).Draw(t, "peers")
+		for i := 0; i < 4; i++ {
+			s := &sub{udp: i%2 == 1}
+			s.peers = rapid.Permutation([]string{"leave", "silent", "keepalive"}).Draw(t, "peers")
+			s.peers = append(s.peers, rapid.SliceOfN(rapid.SampledFrom([]string{"leave", "silent", "keepalive"}), 0, 2).Draw(t, "more_peers")...)
 			subs = append(subs, s)
 		}
 		var wg sync.WaitGroup
